@@ -208,6 +208,19 @@ Section Eval.
 
   Definition is_blank_text (t : ustring) : bool := match strip t with [] => true | _ => false end.
 
+  (** Python's == on the values a stack can hold: 3 == 3.0, "3" != 3, None == None *)
+  Definition val_eqb (a b : value) : bool :=
+    match a, b with
+    | VI x, VI y | VI x, VF y | VF x, VI y | VF x, VF y => x =? y
+    | VS x, VS y => ustr_eqb x y
+    | VNone, VNone => true
+    | _, _ => false
+    end.
+
+  (** float(v) succeeds: a number, or text that reads as one *)
+  Definition floatable (v : value) : bool :=
+    match v with VI _ | VF _ => true | VS t => match parse_int t with Some _ => true | None => false end | VNone => false end.
+
   Fixpoint beval (s : cst) (l : line ustring) (b : bexp) : bool :=
     match b with
     | BCmp o a c =>
@@ -215,10 +228,18 @@ Section Eval.
         if q_strcmp q && ((snd (neval s l a) =? 0) || negb (snd (neval s l a) =? snd (neval s l c)))
         then cmp_str o (text_of s l a) (text_of s l c)
         else if xorb (is_vnone (nvalue s l a)) (is_vnone (nvalue s l c)) then false      (* exactly one operand is None (a cell the record lacks): not above, not below *)
-        else cmp_num o (fst (neval s l a)) (fst (neval s l c))
+        else if floatable (nvalue s l a) && floatable (nvalue s l c) then cmp_num o (fst (neval s l a)) (fst (neval s l c))
+        else cmp_str o (text_of s l a) (text_of s l c)                                   (* an operand that is not a number (an empty cell, text): compared as text *)
     | BCmpS o a c => cmp_str o (seval s l a) (seval s l c)
-    | BEq a c => fst (neval s l a) =? fst (neval s l c)
-    | BEqEq a c => fst (neval s l a) =? fst (neval s l c)
+    | BEq a c =>          (* equals(): one side None: no; both None: yes; both numbers: as numbers; otherwise as text *)
+        let va := nvalue s l a in let vc := nvalue s l c in
+        if xorb (is_vnone va) (is_vnone vc) then false
+        else if is_vnone va then true
+        else if floatable va && floatable vc then fst (neval s l a) =? fst (neval s l c)
+        else ustr_eqb (str_val va) (str_val vc)
+    | BEqEq a c =>        (* ==: equal as trimmed text, or equal as Python values *)
+        let va := nvalue s l a in let vc := nvalue s l c in
+        ustr_eqb (strip (str_val va)) (strip (str_val vc)) || val_eqb va vc
     | BEqEqS a c => ustr_eqb (strip (seval s l a)) (strip (seval s l c))
     | BBetween e0 a c =>
         let v := fst (neval s l e0) in let lo := Z.min (fst (neval s l a)) (fst (neval s l c)) in
@@ -293,15 +314,6 @@ Section Eval.
         let cnt := num_of (dget m nm key) + 1 in
         let m1 := dset m nm key (VI cnt) in
         (with_mx s (mkMx (update v (VI cnt) (vars m1)) (stacks m1) (dicts m1)), AND)
-    end.
-
-  (** Python's == on the values a stack can hold: 3 == 3.0, "3" != 3, None == None *)
-  Definition val_eqb (a b : value) : bool :=
-    match a, b with
-    | VI x, VI y | VI x, VF y | VF x, VI y | VF x, VF y => x =? y
-    | VS x, VS y => ustr_eqb x y
-    | VNone, VNone => true
-    | _, _ => false
     end.
 
   Definition do_action (s : cst) (l : line ustring) (a : action) : cst :=
